@@ -262,6 +262,26 @@ Definition reads_ok (l : list (N * reading)) : bool :=
 Definition hung_obs : list (N * fate * reading) := [(1%N, Died, ROther)].
 Definition hung_ok : bool := hist_ok (RVal 0%N) hung_obs.
 
+(* Stores through a configured path of any file-system shape (a link, a chain of links, a path through a
+   linked directory, "." / "..", a path relative to the working directory ...): every store REPORTS
+   whether it succeeded (Done) or returned an error (Failed), and the file is read through the same
+   configured path before the first store and after every store.  The abstract store: a store that
+   reports success has installed its value, one that reports an error has changed nothing. *)
+Fixpoint path_model (prev : reading) (l : list (N * fate)) : list reading :=
+  match l with
+  | [] => []
+  | (v, f) :: l' => let r := if fate_eqb f Done then RVal v else prev in r :: path_model r l'
+  end.
+
+Definition paths_obs (l : list (N * fate * reading * reading)) (second : bool) : list (N * fate * reading) :=
+  map (fun x : N * fate * reading * reading =>
+         (fst (fst (fst x)), snd (fst (fst x)), if second then snd x else snd (fst x))) l.
+
+(* judge of a paths case: the history specification on the readings of both getters, the reading before
+   the first store being the previous one (ROther: nothing could be read before) *)
+Definition paths_ok (prev : reading) (l : list (N * fate * reading * reading)) : bool :=
+  hist_ok prev (paths_obs l false) && hist_ok prev (paths_obs l true).
+
 Definition decode (val : N -> bytes) (r : reading) : option bytes :=
   match r with RVal v => Some (val v) | ROther => None end.
 
